@@ -667,7 +667,7 @@ func cmdC16Race(args []string) {
 		}
 		senders = append(senders, s)
 	}
-	for round := 0; round < *rounds; round++ {
+	for round := 0; round < *rounds && !res.tooMany(); round++ {
 		ev0 := col.Len()
 		obs.mu.Lock()
 		obs.arrivals, obs.notes = nil, nil
@@ -790,7 +790,7 @@ func cmdC16Race(args []string) {
 			res.violate("C16:close-race-lost-silently", fmt.Sprintf("round %d: %d datagrams vanished at one close (one deliverer can be overtaken by one close)", round, nSilent), map[string]any{"round": round})
 		}
 		// the notices must reach exactly the sockets that sent the unanswered datagrams
-		okN := obs.waitUntil(40*time.Second, func() bool { return len(obs.notes) >= nUnknown })
+		okN := obs.waitUntil(10*time.Second, func() bool { return len(obs.notes) >= nUnknown })
 		time.Sleep(2 * time.Millisecond)
 		arrs, notes := obs.snapshot()
 		if !okN && lastEventAge(col) < 2*time.Second {
@@ -840,6 +840,184 @@ func cmdC16Race(args []string) {
 	for _, s := range senders {
 		s.close()
 	}
+	m.StopAll()
+	col.Reset()
+	if !res.tooMany() {
+		raceMulti(res, col, rng, *seed, *rounds/2+1)
+	}
+}
+
+// raceMulti: several deliverers at once (two neighbours and a sender on the listener's own node): the events of different
+// deliverers interleave, so the round is judged by accounting: every arrival is delivered, answered or - for at most one
+// arrival per deliverer - abandoned because Close() overtook it; notices and errors go to whoever sent; nothing crashes.
+func raceMulti(res *Result, col *collector, rng *rand.Rand, seed int64, rounds int) {
+	ids := []string{"rm-B", "rm-A1", "rm-A2"}
+	m, err := buildMesh(topo{Name: "vee", N: 3, Edges: [][2]int{{0, 1}, {0, 2}}}, ids, mesh.Opts{RouteUpdate: 300 * time.Millisecond, MaxHops: 8}, seed+900)
+	if err != nil || !waitConverged(m, 40*time.Second) {
+		res.inconclusive("race(multi) mesh: %v", err)
+
+		return
+	}
+	defer m.StopAll()
+	b := m.Nodes[ids[0]].N
+	obs := newObservers()
+	var senders []*sock
+	for i, id := range ids {
+		s, err := openSock(m.Nodes[id].N, id, fmt.Sprintf("mx%d", i), obs, 0)
+		if err != nil {
+			res.inconclusive("race(multi): %v", err)
+
+			return
+		}
+		senders = append(senders, s)
+	}
+	const deliverers = 3
+	for round := 0; round < rounds && !res.tooMany(); round++ {
+		ev0 := col.Len()
+		obs.mu.Lock()
+		obs.arrivals, obs.notes = nil, nil
+		obs.mu.Unlock()
+		rx, err := openSock(b, ids[0], "race", obs, time.Duration(rng.Intn(150))*time.Microsecond)
+		if err != nil {
+			res.inconclusive("race(multi): listen: %v", err)
+
+			return
+		}
+		var sent, localErrs int64
+		var wg sync.WaitGroup
+		stop := make(chan struct{})
+		for i, s := range senders {
+			wg.Add(1)
+			go func(i int, s *sock) {
+				defer wg.Done()
+				for k := 0; k < 300; k++ {
+					select {
+					case <-stop:
+						return
+					default:
+					}
+					err := s.sendTo(m.Nodes[s.Node].N, ids[0], "race", []byte(fmt.Sprintf("rm|%d|%d|%d", round, i, k)))
+					if err == nil {
+						atomic.AddInt64(&sent, 1)
+					} else if s.Node == ids[0] && err.Error() == netceptor.ProblemServiceUnknown {
+						atomic.AddInt64(&sent, 1)
+						atomic.AddInt64(&localErrs, 1)
+					}
+				}
+			}(i, s)
+		}
+		time.Sleep(time.Duration(200+rng.Intn(4000)) * time.Microsecond)
+		rx.close()
+		time.Sleep(time.Duration(100+rng.Intn(1500)) * time.Microsecond)
+		close(stop)
+		wg.Wait()
+		if !waitQuiescent(col, m, 150*time.Millisecond, 40*time.Second) {
+			res.inconclusive("race(multi): not quiescent")
+
+			return
+		}
+		nFw, nDeliver, nClosed, nUnknownLocal := 0, 0, 0, 0
+		unknownBy := map[string]int{}
+		for _, r := range col.Since(ev0) {
+			if nodeOfLabel(evStr(r, "n")) != ids[0] {
+				continue
+			}
+			switch r["ev"] {
+			case "dp_fw":
+				if evStr(r, "to") == ids[0] && evStr(r, "tosvc") == "race" {
+					nFw++
+				}
+			case "dp_deliver":
+				if evStr(r, "svc") == "race" {
+					nDeliver++
+				}
+			case "dp_deliver_closed":
+				if evStr(r, "svc") == "race" {
+					nClosed++
+				}
+			case "dp_unknown":
+				if evStr(r, "tosvc") == "race" {
+					if evBool(r, "local") {
+						nUnknownLocal++
+					} else {
+						unknownBy[evStr(r, "fromsvc")]++
+					}
+				}
+			}
+		}
+		nUnknown := nUnknownLocal
+		for _, n := range unknownBy {
+			nUnknown += n
+		}
+		want := nUnknown - nUnknownLocal
+		okN := obs.waitUntil(10*time.Second, func() bool { return len(obs.notes) >= want })
+		if !okN && lastEventAge(col) < 2*time.Second {
+			res.inconclusive("race(multi): notices still moving")
+
+			return
+		}
+		time.Sleep(2 * time.Millisecond)
+		arrs, notes := obs.snapshot()
+		res.eval(fmt.Sprintf("racemulti|%d|%d|%d", minInt(nDeliver, 3), minInt(nUnknown, 3), nFw-nDeliver-nUnknown))
+		silent := nFw - nDeliver - nUnknown
+		rp := map[string]any{"round": round, "variant": "multi"}
+		if int(sent) != nFw {
+			res.violate("C16:close-race-lost-in-transit", fmt.Sprintf("multi round %d: %d datagrams were accepted by WriteTo, %d arrived at the target node", round, sent, nFw), rp)
+		}
+		if silent < 0 {
+			res.violate("C16:close-race-both", fmt.Sprintf("multi round %d: %d arrivals but %d deliveries + %d answers", round, nFw, nDeliver, nUnknown), rp)
+		}
+		if silent > deliverers || (nClosed > 0 && silent != nClosed) {
+			res.violate("C16:close-race-lost-silently", fmt.Sprintf("multi round %d: %d arrivals were neither delivered nor answered; %d deliverers can be overtaken by the one close (abandoned deliveries recorded: %d)",
+				round, silent, deliverers, nClosed), rp)
+		}
+		if len(arrs) != nDeliver {
+			res.violate("C16:close-race-delivery-mismatch", fmt.Sprintf("multi round %d: %d datagrams were handed to the listener, its reader got %d", round, nDeliver, len(arrs)), rp)
+		}
+		if int(localErrs) != nUnknownLocal {
+			res.violate("C16:local-unknown-no-error", fmt.Sprintf("multi round %d: %d local datagrams found no listener, the local sender saw %d errors", round, nUnknownLocal, localErrs), rp)
+		}
+		gotBy := map[string]int{}
+		for _, n := range notes {
+			gotBy[n.Svc]++
+			if n.N.Problem != netceptor.ProblemServiceUnknown || n.N.FromService != n.Svc || n.N.ToNode != ids[0] || n.N.ToService != "race" || n.N.FromNode != n.Node {
+				res.violate("C16:notice-fields-wrong", fmt.Sprintf("multi round %d: socket %s:%s received %+v", round, n.Node, n.Svc, n.N), rp)
+			}
+		}
+		for _, s := range senders {
+			if s.Node == ids[0] {
+				if gotBy[s.Svc] != 0 {
+					res.violate("C16:unexpected-notice", fmt.Sprintf("multi round %d: the local sender received %d notices", round, gotBy[s.Svc]), rp)
+				}
+
+				continue
+			}
+			if gotBy[s.Svc] != unknownBy[s.Svc] {
+				sig := "C16:notice-missing"
+				if gotBy[s.Svc] > unknownBy[s.Svc] {
+					sig = "C16:unexpected-notice"
+				}
+				res.violate(sig, fmt.Sprintf("multi round %d: socket %s sent %d datagrams that found no listener but received %d notices", round, s.Svc, unknownBy[s.Svc], gotBy[s.Svc]), rp)
+			}
+		}
+		res.add("racemulti_sent", int(sent))
+		res.add("racemulti_delivered", nDeliver)
+		res.add("racemulti_noticed", nUnknown)
+		res.add("racemulti_overtaken_by_close", silent)
+		res.count("racemulti_rounds")
+		col.Reset()
+	}
+	for _, s := range senders {
+		s.close()
+	}
+}
+
+func minInt(a, b int) int {
+	if a < b {
+		return a
+	}
+
+	return b
 }
 
 func cmdC16(args []string) {
